@@ -370,7 +370,7 @@ def run(ctx):
         lock_ok = facts is not None and bad == []
         extra = {} if lock_ok else dict(lock_obligation_broken=bad if isinstance(bad, list) else str(bad))
         # ---- (D) sequential differential run
-        ncases = 700 if not thorough else 12000
+        ncases = 2000 if not thorough else 12000
         cases = gen_pubsub.gen_programs(ctx.seed, ncases)
         harnesses = [H] + ([HR] if thorough else [])
         first_bad = None
@@ -410,7 +410,7 @@ def run(ctx):
             rc = 1
         # ---- (V) concurrent runs
         if rc == 0:
-            runs = [(ctx.seed, 4, 5, 1500, 3, 1, 60), (ctx.seed + 1, 6, 6, 1200, 2, 0, 60)]
+            runs = [(ctx.seed, 4, 5, 1500, 3, 1, 60), (ctx.seed + 1, 6, 6, 1200, 2, 0, 60), (ctx.seed + 2, 3, 8, 2500, 1, 1, 60)]
             if thorough:
                 runs = [(ctx.seed + i, 4 + i % 4, 4 + i % 5, 4000, 1 + i % 4, i % 2, 240) for i in range(12)]
             for i, a in enumerate(runs):
